@@ -112,7 +112,10 @@ fn code_of_state(s: &State) -> u8 {
 }
 /// 0..=3 symbolic stack entries (Integers, plus possibly a RETURN frame and a FOR frame marker).
 fn havoc_stack(r: &mut Runtime) -> usize {
-    let n = vk::any_below(4) as usize;
+    havoc_stack_upto(r, 3)
+}
+fn havoc_stack_upto(r: &mut Runtime, max: u8) -> usize {
+    let n = vk::any_below(max + 1) as usize;
     let mut i = 0;
     while i < n {
         let v = match vk::any_below(3) {
@@ -425,6 +428,7 @@ vk_harness!(c04_entering_a_line_marks_dirty, {
     r.dirty = dirty0;
     r.cont = state_of(vk::any_below(10));
     r.state = State::Stopped;
+    havoc_stack(&mut r); // RETURN / NEXT frames of a program that stopped inside subroutines and loops
     let m = vk::any_u16();
     vk::assume(m <= 65529);
     let deletes = vk::any_bool();
@@ -436,6 +440,9 @@ vk_harness!(c04_entering_a_line_marks_dirty, {
     }
     vk_check!(r.dirty || !dirty0, "C04: entering a line must never cancel a pending recompilation");
     vk_check!(code_of_state(&r.cont) == 1, "C04: an edit cancels the continuation point (CONT must not resume into an edited program)");
+    if changed {
+        vk_check!(r.stack.len() == 0, "C04: an edit discards pending RETURN / NEXT frames of the previous program");
+    }
     // the listing reflects exactly the edit
     vk_check!(has_line(&r, m) == !deletes, "C04: the entered line is stored / the bare number deletes it");
     if m != stored {
@@ -504,8 +511,10 @@ vk_harness!(c04_delete_marks_dirty, {
     let dirty0 = vk::any_bool();
     r.dirty = dirty0;
     r.state = State::Running;
+    r.cont = state_of(vk::any_below(10));
     r.pc = 5;
     r.entry_address = 3;
+    havoc_stack_upto(&mut r, 1);
     let (a, b) = (vk::any_u16(), vk::any_u16());
     vk::assume(a <= b && b <= 65529);
     r.stack.push(Val::Single(a as f32)).unwrap();
@@ -521,6 +530,7 @@ vk_harness!(c04_delete_marks_dirty, {
         vk_check!(has_line(&r, stored) == !inside, "C15: DELETE removes exactly the lines inside the inclusive range");
         if inside {
             vk_check!(r.dirty, "C04: DELETE that removed a line must force recompilation");
+            vk_check!(code_of_state(&r.cont) == 1 && r.stack.len() == 0, "C04: DELETE that removed a line cancels the continuation and pending RETURN / NEXT frames");
         }
         vk_check!(r.dirty || !dirty0, "C04: DELETE must never cancel a pending recompilation");
     }
@@ -543,8 +553,10 @@ vk_harness!(c04_renum_marks_dirty, {
     let dirty0 = vk::any_bool();
     r.dirty = dirty0;
     r.state = State::Running;
+    r.cont = state_of(vk::any_below(10));
     r.pc = 5;
     r.entry_address = 3;
+    havoc_stack_upto(&mut r, 1);
     let (new_start, old_start, step) = (vk::any_u16(), vk::any_u16(), vk::any_u16());
     r.stack.push(Val::Single(new_start as f32)).unwrap();
     r.stack.push(Val::Single(old_start as f32)).unwrap();
@@ -557,6 +569,7 @@ vk_harness!(c04_renum_marks_dirty, {
             if renumbered {
                 vk_check!(r.dirty, "C04: RENUM that changed a line number must force recompilation");
                 vk_check!(now == 0 && has_line(&r, new_start), "C14: the renumbered line is stored under its new number only");
+                vk_check!(code_of_state(&r.cont) == 1 && r.stack.len() == 0, "C04: RENUM cancels the continuation and pending RETURN / NEXT frames");
             }
             vk_check!(r.dirty || !dirty0, "C04: RENUM must never cancel a pending recompilation");
         }
